@@ -1449,6 +1449,47 @@ def m_iter_adapter(I, st, args, dty, site):
     (its obligations are recorded); the adapter itself is an unknown-length iterator."""
     it = as_iter(I, st, args[0])
     clo = args[1]
+    if it is not None and it[0] == 's' and it[1] in (RANGE, RANGE_INC) and all(_intarg(x) for x in it[2][:2]):
+        # a range with constant bounds and a handful of values is a known sequence
+        (l1, h1), (l2, h2) = D.get_iv(st, it[2][0][1]), D.get_iv(st, it[2][1][1])
+        exhausted = len(it[2]) > 2 and it[2][2][0] == 'i' and D.get_iv(st, it[2][2][1]) != (0, 0)
+        if l1 == h1 and l2 == h2 and not exhausted and 0 <= (l2 - l1) <= 12:
+            last = int(l2) if it[1] == RANGE_INC else int(l2) - 1
+            it = ('it', 'seq', tuple(const_int(k, it[2][0][2]) for k in range(int(l1), last + 1)), 0, False)
+    if it is not None and it[0] == 'it' and it[1] == 'seq' and site['callee'].endswith('::take_while') and len(it[2]) - it[3] <= 12 and clo is not None and clo[0] in ('clo', 'fn'):
+        # the prefix of a known short sequence that satisfies the predicate (one outcome per decision)
+        outs, work, exact = [], [(st.clone(), 0)], True
+        elems = it[2][it[3]:]
+        while work and exact:
+            s, i = work.pop()
+            if i == len(elems):
+                outs.append((s, ('it', 'seq', tuple(elems), 0, it[4])))
+                continue
+            e = ('r', I.alloc(s, elems[i])) if it[4] else elems[i]
+            rs = I.call_closure(s, clo, [('r', I.alloc(s, e))], site)
+            if rs is None:
+                exact = False
+                break
+            for s2, b in rs:
+                if b[0] != 'i':
+                    exact = False
+                    break
+                lo, hi = D.get_iv(s2, b[1])
+                for val in (0, 1):
+                    if lo <= val <= hi:
+                        s3 = s2.clone()
+                        if not D.set_iv(s3, b[1], val, val):
+                            continue
+                        t_ = D.TERM.get(b[1])
+                        if t_ is not None and t_[0] in D.NEG and isinstance(t_[1], int) and isinstance(t_[2], int):
+                            if not D.refine_cmp(s3, t_[0] if val else D.NEG[t_[0]], t_[1], t_[2]):
+                                continue
+                        if val:
+                            work.append((s3, i + 1))
+                        else:
+                            outs.append((s3, ('it', 'seq', tuple(elems[:i]), 0, it[4])))
+        if exact and outs:
+            return outs
     if it is not None and it[0] == 'it' and it[1] == 'seq' and site['callee'].endswith('::map') and len(it[2]) - it[3] <= 12 and clo is not None and clo[0] in ('clo', 'fn'):
         # map over a known short sequence with a closure that has exactly one outcome per element and changes nothing: the mapped sequence
         s = st.clone()
@@ -1907,6 +1948,8 @@ def m_format(I, st, args, dty, site):
                 zero = flags is not None and flags & (1 << 24) and (flags & ~((1 << 24) | (1 << 27))) == (0x20 | (3 << 29)) and x['precision'] is None
                 if v[0] == 'str' and plain:
                     pieces.extend(seg_of_strv(I, st, v[1]))
+                elif v[0] == 'i' and v[2] == 'char' and plain and D.get_iv(st, v[1])[0] == D.get_iv(st, v[1])[1]:
+                    pieces.append(('lit', frozenset([chr(int(D.get_iv(st, v[1])[0]))])))       # a character that is one known character on this path
                 elif v[0] == 'i' and v[2] != 'char' and plain and D.get_iv(st, v[1])[0] >= 0:
                     pieces.append(('num', v[1], v[2]))
                 elif v[0] == 'i' and v[2] != 'char' and zero and isinstance(width, int) and D.get_iv(st, v[1])[0] >= 0:
@@ -2861,6 +2904,10 @@ def m_string_push(I, st, args, dty, site):
     lo, hi = D.get_iv(st, sv.len)
     c = args[1]
     cl, ch = D.get_iv(st, c[1]) if c[0] == 'i' else (0, 0x10FFFF)
+    if sv.lits is not None and len(sv.lits) == 1 and cl == ch and I.seg.get(sv.ident) is None:
+        # a known text plus a known character is a known text
+        st.objs[h[1]] = ('String', I.lit_str(st, next(iter(sv.lits)) + chr(int(cl))))
+        return [(st, UNIT)]
     w = 1 if ch < 128 else 4
     nv = D.fresh_vid(st, lo + 1, min(hi + w, USIZE_MAX))
     f = sfacts(st, sv)
@@ -2876,6 +2923,10 @@ def m_string_push_str(I, st, args, dty, site):
         return None
     sv = o_[1]
     ov = strv_of(I, st, args[1])
+    if (ov is not None and sv.lits is not None and len(sv.lits) == 1 and ov.lits is not None and len(ov.lits) == 1
+            and I.seg.get(sv.ident) is None and I.seg.get(ov.ident) is None):
+        st.objs[h[1]] = ('String', I.lit_str(st, next(iter(sv.lits)) + next(iter(ov.lits))))
+        return [(st, UNIT)]
     lo, hi = D.get_iv(st, sv.len)
     l2, h2 = D.get_iv(st, ov.len) if ov is not None else (0, USIZE_MAX)
     nv = D.fresh_vid(st, lo + l2, min(hi + h2, USIZE_MAX))
@@ -2892,6 +2943,10 @@ def m_string_new(I, st, args, dty, site):
        'std::str::<impl str>::to_ascii_lowercase', 'std::str::<impl str>::repeat')
 def m_str_to_new_string(I, st, args, dty, site):
     sv = strv_of(I, st, args[0])
+    if site['callee'].endswith('::repeat') and sv is not None and sv.lits is not None and len(sv.lits) == 1 and len(args) > 1 and _intarg(args[1]):
+        lo_, hi_ = D.get_iv(st, args[1][1])
+        if lo_ == hi_ and 0 <= lo_ <= 64:
+            return [(st, new_string_obj(I, st, I.lit_str(st, next(iter(sv.lits)) * int(lo_))))]
     n = I.fresh_str(st, site['callee'].rsplit('::', 1)[1])
     if sv is not None and site['callee'].endswith('replace') and len(args) >= 3:
         to = strv_of(I, st, args[2])
